@@ -432,3 +432,170 @@ Proof.
   intros Hd Hd' Hne Heq. destruct (mangle_injective_or_error g ls ds l) as [(l' & _ & H)|H]; auto.
   elim Hne. now rewrite (H d d' Hd Hd' Heq).
 Qed.
+
+(* ------------------------------------------------------------------ resolve_term_references keeps rules *)
+Definition same_shape (d d' : defn) : Prop :=
+  d_name d' = d_name d /\ d_term d' = d_term d /\ (d_term d = false -> d' = d).
+
+Lemma map_result_Forall2 {A B} (f : A -> result B) (R : A -> B -> Prop) l l' :
+  (forall x y, f x = Ok y -> R x y) -> map_result f l = Ok l' -> Forall2 R l l'.
+Proof.
+  intros Hf. revert l'. induction l as [|x r IH]; simpl; intros l' H.
+  - inversion H. constructor.
+  - destruct (f x) as [y|] eqn:E; simpl in H; [|discriminate].
+    destruct (map_result f r) as [r'|] eqn:E2; simpl in H; [|discriminate].
+    inversion H. constructor; auto.
+Qed.
+
+Lemma resolve_round_shape l l' : resolve_round l = Ok l' -> Forall2 same_shape l l'.
+Proof.
+  unfold resolve_round. apply map_result_Forall2. intros d d' H.
+  destruct (d_term d) eqn:Et.
+  - destruct (d_tree d) as [t|].
+    + destruct (resolve_pass _ t) as [t'|]; simpl in H; [|discriminate]. inversion H. subst d'.
+      unfold same_shape; simpl. repeat split; auto. congruence.
+    + inversion H. subst. unfold same_shape. repeat split; auto.
+  - inversion H. subst. unfold same_shape. repeat split; auto.
+Qed.
+
+Lemma same_shape_refl l : Forall2 same_shape l l.
+Proof. induction l; constructor; auto. unfold same_shape. auto. Qed.
+
+Lemma same_shape_trans l1 l2 l3 :
+  Forall2 same_shape l1 l2 -> Forall2 same_shape l2 l3 -> Forall2 same_shape l1 l3.
+Proof.
+  intros H. revert l3. induction H as [|a b r1 r2 Hab Hr IH]; intros l3 H3; inversion H3; subst; constructor; auto.
+  destruct Hab as (N1 & T1 & E1). destruct H1 as (N2 & T2 & E2).
+  unfold same_shape. repeat split; try congruence.
+  intros Ht. rewrite E2 by congruence. now apply E1.
+Qed.
+
+Lemma resolve_terms_shape fuel : forall l l', resolve_terms fuel l = Ok l' -> Forall2 same_shape l l'.
+Proof.
+  induction fuel as [|f IH]; simpl; intros l l' H.
+  - destruct (needs_resolve l); [discriminate|]. inversion H. apply same_shape_refl.
+  - destruct (needs_resolve l).
+    + destruct (resolve_round l) as [l1|] eqn:E; simpl in H; [|discriminate].
+      eapply same_shape_trans. apply resolve_round_shape; eauto. now apply IH.
+    + inversion H. apply same_shape_refl.
+Qed.
+
+(* ------------------------------------------------------------------ do_import *)
+Lemma clashes_false a b :
+  clashes a b = false -> forall d, In d a -> defined (d_name d) b = false.
+Proof.
+  unfold clashes. intros H d Hd.
+  destruct (defined (d_name d) b) eqn:E; auto.
+  assert (existsb (fun d => defined (d_name d) b) a = true) by (apply existsb_exists; eauto). congruence.
+Qed.
+
+Theorem do_import_spec loader fs ls b imp b' :
+  do_import loader fs ls b imp = Ok b' ->
+  let ls' := (join "__" (fst imp), snd imp) :: ls in
+  exists ms gb kept,
+    lookup_module (fst imp) fs = Some ms /\
+    loader ls' ms = Ok gb /\
+    (forall d, In d kept <-> In d (b_defs gb) /\
+                             Reach (b_defs gb) (map (mangle ls') (map fst (snd imp))) (d_name d)) /\
+    (forall d, In d kept -> defined (d_name d) (b_defs b) = false) /\
+    b_defs b' = (b_defs b ++ kept)%list /\ b_ignore b' = b_ignore b.
+Proof.
+  unfold do_import. cbv zeta. intros H.
+  destruct (lookup_module (fst imp) fs) as [ms|]; [|discriminate].
+  destruct (loader _ ms) as [gb|] eqn:El; simpl in H; [|discriminate].
+  destruct (remove_unused _ _) as [kept|] eqn:Er; simpl in H; [|discriminate].
+  destruct (clashes kept (b_defs b)) eqn:Ec; [discriminate|]. inversion H; subst b'; clear H.
+  exists ms, gb, kept.
+  apply remove_unused_is_reachability in Er. destruct Er as [_ Hr].
+  split; auto. split; auto. split; [exact Hr|]. split; [now apply clashes_false|]. split; reflexivity.
+Qed.
+
+(* a clash with an existing definition is an error, never a capture *)
+Theorem import_clash_is_error loader fs ls b imp ms gb kept d :
+  lookup_module (fst imp) fs = Some ms ->
+  loader ((join "__" (fst imp), snd imp) :: ls) ms = Ok gb ->
+  remove_unused (b_defs gb) (map (mangle ((join "__" (fst imp), snd imp) :: ls)) (map fst (snd imp))) = Ok kept ->
+  In d kept -> defined (d_name d) (b_defs b) = true ->
+  do_import loader fs ls b imp = Err EClash.
+Proof.
+  intros Hl Hg Hr Hd Hdef. unfold do_import. rewrite Hl, Hg. simpl. rewrite Hr. simpl.
+  assert (clashes kept (b_defs b) = true) as ->; auto.
+  unfold clashes. apply existsb_exists. eauto.
+Qed.
+
+(* ------------------------------------------------------------------ flat modules *)
+Lemma collect_imports_defs k ds acc :
+  fold_left (fun acc s => match s with SImport p al => add_import p al acc | _ => acc end)
+            (map (SDef k) ds) acc = acc.
+Proof. revert acc. induction ds; simpl; auto. Qed.
+
+Lemma apply_stmts_defs g ls ds b :
+  apply_stmts g ls (map (SDef KDefine) ds) b =
+  (l <- define_all g ls ds (b_defs b) ;; Ok (mkB l (b_ignore b))).
+Proof.
+  unfold apply_stmts, define_all. revert b. induction ds as [|d ds IH]; intros b; simpl.
+  - destruct b; reflexivity.
+  - destruct (define g false (mangle_def ls d) (b_defs b)) as [l1|e] eqn:E; simpl.
+    + rewrite IH. reflexivity.
+    + rewrite define_all_err. clear. induction ds; simpl; auto.
+Qed.
+
+(* loading a module that consists of plain definitions, under a mangle: every definition is the
+   renamed one, in the order of the file; rules are exactly mangle_def of the source rule *)
+Local Opaque resolve_terms.
+Theorem load_flat_module f fs g ls ds gb :
+  load (S f) fs g ls (map (SDef KDefine) ds) empty_builder = Ok gb ->
+  Forall2 same_shape (map (fun d => norm_def g (mangle_def ls d)) ds) (b_defs gb) /\
+  NoDup (map (fun d => mangle ls (d_name d)) ds) /\ b_ignore gb = [].
+Proof.
+  simpl. unfold collect_imports. rewrite collect_imports_defs. simpl.
+  rewrite apply_stmts_defs. simpl.
+  destruct (define_all g ls ds []) as [l|] eqn:E; simpl; [|discriminate].
+  destruct (resolve_terms (S (List.length l)) l) as [l'|] eqn:Er; simpl; [|discriminate].
+  intros H; inversion H; subst gb; clear H. simpl.
+  apply define_all_spec in E. destruct E as (-> & Hnd & _). simpl in Er.
+  apply resolve_terms_shape in Er. auto.
+Qed.
+Local Transparent resolve_terms.
+
+Lemma Forall2_In_r {A B} (R : A -> B -> Prop) l l' y :
+  Forall2 R l l' -> In y l' -> exists x, In x l /\ R x y.
+Proof.
+  induction 1; simpl; [tauto|]. intros [<-|H1]; eauto. destruct (IHForall2 H1) as (x0 & ? & ?). eauto.
+Qed.
+
+(* import = inlining: what an import of a flat module contributes is, for rules, exactly
+   mangle_def of a rule of the module that is reachable from the imported names (and conversely
+   every reachable one is contributed); nothing already defined is captured *)
+Theorem import_is_inlining f fs g ls b p al ds b' :
+  lookup_module p fs = Some (map (SDef KDefine) ds) ->
+  do_import (fun ls' ms => load (S f) fs g ls' ms empty_builder) fs ls b (p, al) = Ok b' ->
+  let ls' := (join "__" p, al) :: ls in
+  exists gdefs kept,
+    Forall2 same_shape (map (fun d => norm_def g (mangle_def ls' d)) ds) gdefs /\
+    b_defs b' = (b_defs b ++ kept)%list /\
+    (forall d', In d' kept <-> In d' gdefs /\ Reach gdefs (map (mangle ls') (map fst al)) (d_name d')) /\
+    (forall d', In d' kept -> d_term d' = false ->
+        exists d, In d ds /\ d_term d = false /\ d' = norm_def g (mangle_def ls' d)) /\
+    (forall d', In d' kept -> defined (d_name d') (b_defs b) = false) /\
+    NoDup (map (fun d => mangle ls' (d_name d)) ds).
+Proof.
+  intros Hl H ls'. apply do_import_spec in H. simpl in H.
+  destruct H as (ms & gb & kept & Hl' & Hg & Hk & Hfresh & Hd & _).
+  rewrite Hl in Hl'. inversion Hl'; subst ms; clear Hl'.
+  apply load_flat_module in Hg. destruct Hg as (Hsh & Hnd & _).
+  exists (b_defs gb), kept.
+  split; [exact Hsh|]. split; [exact Hd|]. split; [exact Hk|]. split; [|split; [exact Hfresh | exact Hnd]].
+  intros d' Hd' Ht. apply Hk in Hd'. destruct Hd' as [Hin _].
+  destruct (Forall2_In_r _ _ _ _ Hsh Hin) as (x & Hx & (N & T & E)).
+  apply in_map_iff in Hx. destruct Hx as (d & <- & Hd0).
+  exists d. simpl in *. split; auto. split; [congruence|]. apply E. congruence.
+Qed.
+
+(* no capture: a private name of the module is spelled differently after mangling, and a
+   contributed name equal to an existing local one is the EClash error above *)
+Theorem no_capture l s : assoc s (snd l) = None -> mangle1 l s <> s.
+Proof. intros H. rewrite mangle1_unaliased by auto. apply plain_fresh. Qed.
+
+Theorem local_after_import_is_error g d l : defined (d_name d) l = true -> define g false d l = Err EDup.
+Proof. apply define_dup. Qed.
